@@ -2,7 +2,7 @@
    Properties/C10.v quote them (lemmas: TTHeaderLib, TTHeaderSec, TTHeaderDec, TTHeaderEnc). *)
 From GV Require Import Lib.Bytes Lib.Res Gen.Consts Model.TTHeader Spec.FrameLayout.
 From GV Require Export Proofs.TTHeaderLib Proofs.TTHeaderSec Proofs.TTHeaderDec Proofs.TTHeaderEnc
-     Proofs.TTHeaderRef.
+     Proofs.TTHeaderRef Proofs.TTHeaderLay.
 From Coq Require Import ZifyN ZifyNat ZifyBool Permutation.
 Open Scope N_scope.
 
